@@ -271,14 +271,16 @@ Theorem C12_pt_hpaths_agree : forall c t,
   let b := pt_behaviour c t in let w := pt_hpaths t in
   (h_flush w = if b_open_enosys b then UEnosys else UOk) /\
   h_getattr w = Some (b_open_enosys b) /\ h_fsync w = Some (b_open_enosys b) /\
-  h_readdir w = Some (b_opendir_enosys b) /\ h_write_kp w = Some (b_killpriv b).
+  h_readdir w = Some (b_opendir_enosys b) /\ h_write_kp w = Some (b_killpriv b) /\
+  h_write_append w = Some (b_writeback_flags b).
 Proof. exact pt_hpaths_agree. Qed.
 
 Theorem C12_ovl_hpaths_agree : forall c t,
   let b := ovl_behaviour c t in let w := ovl_hpaths t in
   (h_flush w = if b_open_enosys b then UEnosys else UOk) /\
   h_getattr w = None /\ h_fsync w = Some (b_open_enosys b) /\ h_readdir w = None /\
-  h_write_kp w = (if b_open_enosys b then None else Some (b_killpriv b)).
+  h_write_kp w = (if b_open_enosys b then None else Some (b_killpriv b)) /\
+  h_write_append w = (if b_open_enosys b then None else Some false).
 Proof. exact ovl_hpaths_agree. Qed.
 
 Theorem C12_pt_hpaths_negotiated : forall c t capable, hpaths_within (pt_hpaths (snd (pt_init c t capable))) capable.
@@ -294,7 +296,7 @@ Proof. exact vfs_hpaths_negotiated. Qed.
 (* non-vacuity: with every feature negotiated the handle paths are all in their "on" state *)
 Example C12_ex_hpaths_on :
   pt_hpaths (snd (pt_init under_vfs toggles_off 18446744073709551615)) =
-  mkH UEnosys (Some true) (Some true) (Some true) (Some true).
+  mkH UEnosys (Some true) (Some true) (Some true) (Some true) (Some true).
 Proof. vm_compute. reflexivity. Qed.
 
 (* per-file DAX under a dax_file_size threshold *)
